@@ -133,6 +133,13 @@ POSITIONS = [
     ("call-nobrackets-value", "print(nbi({X}))", set()),
     ("call-nobrackets-two", "print(nbi({X}, {X}))", set()),
     ("call-nobrackets-operand", "print(nbi() + {X})", {"int"}),
+    # BOTH operands of a comparison of the offered type (round 16: C06-I, `==` / `!=` allowed on the pseudo types "no value" / "several
+    # values" - two calls without a single value compare "equal types"; only the Batch converter then still writes a script)
+    ("cmp-same-eq", "print({X} == {X})", set(SCALAR)),
+    ("cmp-same-ne", "bvar = {X} != {X}", set(SCALAR)),
+    ("cmp-same-lt", "print({X} < {X})", {"int"}),
+    ("cmp-same-cond", "if {X} == {X} {\n\tprint(1)\n}", set(SCALAR)),
+    ("cmp-same-grouped", "print(({X}) != ({X}))", set(SCALAR)),
     ("if-cond", "if {X} {\n\tprint(1)\n}", {"bool"}),
     ("elif-cond", "if false {\n\tprint(1)\n} else if {X} {\n\tprint(2)\n}", {"bool"}),
     ("for-cond", "for {X} {\n\tbreak\n}", {"bool"}),
@@ -181,6 +188,9 @@ FUNC_POSITIONS = [
     # a function's own variable may have the name of a global and another type (it is another variable)
     ("shadow-global-in-func", "func r() {\n\tivar, nv := {X}, 1\n\tprint(ivar, nv)\n}\nr()", set(SINGLE)),
     ("shadow-global-in-func-call", "func r() {\n\tsvar, nv := {X}\n\tprint(svar, nv)\n}\nr()", {"multi"}),
+    # the same inside a function that is never called (its body reaches no converter: only the parser can reject it)
+    ("cmp-same-in-uncalled-function", "func r() {\n\tprint({X} == {X})\n}\nprint(1)", set(SCALAR)),
+    ("cmp-same-ne-in-uncalled-function", "func r() bool {\n\treturn {X} != {X}\n}\nprint(1)", set(SCALAR)),
     ("nested-return", "func r() int {\n\tif ivar == 1 {\n\t\treturn {X}\n\t}\n\treturn 1\n}\nprint(r())", {"int"}),
     ("nested-return-void", "func r() {\n\tif ivar == 1 {\n\t\treturn {X}\n\t}\n}\nr()", set()),
 ]
@@ -231,6 +241,8 @@ def table(full=True):
                         expect = True if (e.endswith(")") and "fn(" in e) else None
                     elif name in ("not-not-value", "not-not-not", "not-not-four") and ty == "bool":
                         expect = None
+                    elif name.startswith("cmp-same") and ty in SLICES:
+                        expect = None
                     else:
                         expect = ty in ok
                     if e.startswith("(") and ty in ("none", "multi"):
@@ -248,9 +260,16 @@ def table(full=True):
         for ty in ALL:
             for e in (OFFERED[ty] if full else OFFERED[ty][:1]):
                 expect = ty in ok
+                if name.startswith("cmp-same") and ty in SLICES:
+                    expect = None
                 if e.startswith("(") and ty in ("none", "multi"):
                     expect = False                  # a bracketed call is not a call (see above)
                 yield dict(name=name, ctx="funcdef", offered=ty, expr=e, src=PRELUDE + tmpl.replace("{X}", e) + "\n", expect=expect)
+    # two program calls compared with each other: a program call yields three values, not one
+    for op in ("==", "!="):
+        for ctx in CONTEXTS:
+            yield dict(name="cmp-app-calls" + ("-eq" if op == "==" else "-ne"), ctx=ctx, offered="multi", expr='@echo("x")',
+                       src=PRELUDE + wrap(ctx, 'print(@echo("x") %s @echo("y"))' % op), expect=False)
     for name, tmpl, ok in VARIABLE_POSITIONS:
         for ty, v in VARS.items():
             for ctx in CONTEXTS:
